@@ -1,5 +1,7 @@
 import PyodaProofs.C04
 import PyodaProofs.C04Spec
+import PyodaProofs.C04Tail
+import PyodaProofs.C04TailRules
 
 #print axioms Pyoda.C04.search_spec
 #print axioms Pyoda.C04.precalc_get_contains
@@ -13,3 +15,11 @@ import PyodaProofs.C04Spec
 #print axioms Pyoda.C04.agrees
 #print axioms Pyoda.C04.dataOK_sound
 #print axioms Pyoda.C04.dataOK_gives_spec
+#print axioms Pyoda.C04.altmap_get_dst
+#print axioms Pyoda.C04.altmap_get_std
+#print axioms Pyoda.C04.altmap_partition
+#print axioms Pyoda.C04.recSpec_of_rule
+#print axioms Pyoda.C04.ruleOK_sound
+#print axioms Pyoda.C04.tailOK_sound
+#print axioms Pyoda.C04.tail_partition_of_tailOK
+#print axioms Pyoda.C04.tail_partition_of_tailOK_stdFirst
